@@ -4,11 +4,16 @@ import (
 	"context"
 	"encoding/json"
 	"fmt"
+	"io"
 	"os"
+
+	"flamingo.me/pugtemplate/pugjs"
 )
 
 // TC: one template tree, rendered with several data values, in production and (optionally) debug mode.
-// Every render uses a fresh engine, so results do not depend on each other.
+// Every render uses a fresh engine, so results do not depend on each other.  Render returns an io.Reader:
+// the readers of one case are read only after ALL its renders have been made (a caller may keep a result
+// while it renders something else; what it reads later must still be that render's output).
 type tcCase struct {
 	Files  map[string]string `json:"files"` // hex name -> hex AST json
 	Render string            `json:"render"`
@@ -42,6 +47,15 @@ func runTCMode(c tcCase, debug bool) (m tcMode, err error) {
 		return m, err
 	}
 	name := unhx(c.Render)
+	var pending []io.Reader
+	defer func() {
+		for i, rd := range pending {
+			if rd != nil && i < len(m.Res) && m.Res[i].Class == clsOK {
+				b, _ := io.ReadAll(rd)
+				m.Res[i].Out = hx(string(b))
+			}
+		}
+	}()
 	for _, raw := range c.Datas {
 		data, err := buildData(raw)
 		if err != nil {
@@ -57,9 +71,25 @@ func runTCMode(c tcCase, debug bool) (m tcMode, err error) {
 			return m, nil
 		}
 		m.Code = hx(e.TemplateCode[name])
-		m.Res = append(m.Res, safeRender(e, context.Background(), name, data))
+		res, rd := renderKeep(e, context.Background(), name, data)
+		m.Res = append(m.Res, res)
+		pending = append(pending, rd)
 	}
 	return m, nil
+}
+
+// renderKeep renders and hands the reader back unread.
+func renderKeep(e *pugjs.Engine, ctx context.Context, name string, data interface{}) (res renderResult, rd io.Reader) {
+	defer func() {
+		if r := recover(); r != nil {
+			res, rd = renderResult{Class: clsPanic, Err: fmt.Sprint(r)}, nil
+		}
+	}()
+	r, err := e.Render(ctx, name, data)
+	if err != nil {
+		return renderResult{Class: classifyErr(err), Err: err.Error()}, nil
+	}
+	return renderResult{Class: clsOK}, r
 }
 
 func init() {
